@@ -117,6 +117,7 @@ def wildAll (ms cs : List String) : Bool := ms.length == cs.length && (ms.zip cs
 
 def variantLabel (outsC : List String) (r : Reader Tok) (ops : List Spec.Cursor.Op) : String :=
   if wildAll ((Impl.ColumnReader.outs Fixes.preF4 r ops).map renderOut) outsC then "impl_model[C=pre-F4-model]"
+  else if wildAll ((Impl.ColumnReader.outs Fixes.preF63 r ops).map renderOut) outsC then "impl_model[C=pre-F63-model]"
   else if wildAll ((Impl.ColumnReader.outs Fixes.pinned r ops).map renderOut) outsC then "impl_model[C=pinned-model]"
   else "impl_model"
 
